@@ -179,6 +179,9 @@ pub fn execute(plan: &Plan, ctx: &mut Ctx) {
     let hupdates = Rc::new(Cell::new(0u64));
     let hupderr = Rc::new(Cell::new(None));
     let htouch = Rc::new(Cell::new(false));
+    // HOLD: the caller keeps its own read-only view of the shared clock (a shared borrow) alive across the
+    // read-only calls it makes on the adapters and the constant getter
+    let mut hold_view = false;
     let mut histories: Vec<RecordingHistory> = (0..n_hist)
         .map(|_| RecordingHistory { asked: asked.clone(), absent: habsent.clone(), updates: hupdates.clone(), update_err: hupderr.clone(), clock: clock_ref.clone(), touch_clock: htouch.clone() })
         .collect();
@@ -222,6 +225,10 @@ pub fn execute(plan: &Plan, ctx: &mut Ctx) {
                 // TICK k: from now on the clock is a free-running counter that advances by k ns at every
                 // READ (0: stands still between operations again). Every operation below is one call into
                 // the crate: what it returns and stores must belong to ONE instant, its first reading.
+                "HOLD" => {
+                    hold_view = op.arg(0) != 0;
+                    None
+                }
                 "TICK" => {
                     CLOCK_TICK_PER_GET.with(|c| c.set(op.arg(0).clamp(0, 1000)));
                     None
@@ -425,6 +432,7 @@ pub fn execute(plan: &Plan, ctx: &mut Ctx) {
                 }
                 "HNEW" => {
                     let h = hist_iter.next().expect("pre-allocated history");
+                    let _view = if hold_view { Some(clock_ref.borrow()) } else { None };
                     let form = op.arg(0);
                     let arg = op.arg(1);
                     let made: Result<GetterFromHistory<f32, SimClock, E>, Error<E>> = match form {
@@ -452,6 +460,7 @@ pub fn execute(plan: &Plan, ctx: &mut Ctx) {
                 }
                 "MPNEW" => {
                     let h = prof_iter.next().expect("pre-allocated profile");
+                    let _view = if hold_view { Some(clock_ref.borrow()) } else { None };
                     let arg = op.arg(1);
                     let made: Result<GetterFromHistory<Command, SimClock, E>, Error<E>> = match op.arg(0) {
                         0 => Ok(GetterFromHistory::new_no_delta(h, clock_ref.clone())),
@@ -477,6 +486,7 @@ pub fn execute(plan: &Plan, ctx: &mut Ctx) {
                     }
                 }
                 "MPGET" => {
+                    let _view = if hold_view { Some(clock_ref.borrow()) } else { None };
                     if let Some(a) = mp_adapter.as_ref() {
                         let got = norm(&a.get());
                         let want = match clk {
@@ -500,6 +510,7 @@ pub fn execute(plan: &Plan, ctx: &mut Ctx) {
                     None
                 }
                 "HTIME" => {
+                    let _view = if hold_view { Some(clock_ref.borrow()) } else { None };
                     if let Some(a) = adapter.as_mut() {
                         let r = norm_unit(&a.set_time(Time(op.arg(0))));
                         let want = match clk {
@@ -550,6 +561,8 @@ pub fn execute(plan: &Plan, ctx: &mut Ctx) {
                     None
                 }
                 "HGET" => {
+                    // (not while the history itself takes exclusive access to the clock: that is HTOUCH's case)
+                    let _view = if hold_view && !htouch.get() { Some(clock_ref.borrow()) } else { None };
                     if let Some(a) = adapter.as_ref() {
                         let n0 = asked.borrow().len();
                         // HGET 1: the clock is a free-running counter during this call (advances at every
@@ -592,6 +605,7 @@ pub fn execute(plan: &Plan, ctx: &mut Ctx) {
                     None
                 }
                 "CG" => {
+                    let _view = if hold_view { Some(clock_ref.borrow()) } else { None };
                     let got = norm(&cg.get());
                     let want = match clk {
                         Err(e) => Out::Err(er_of(e)),
@@ -668,7 +682,12 @@ pub fn execute(plan: &Plan, ctx: &mut Ctx) {
                 }
                 ctx.nontrivial = true;
             }
-            "HTIME" if adapter.is_some() => ctx.count("reach.set_time_after_clock_moved"),
+            "HTIME" if adapter.is_some() => {
+                ctx.count("reach.set_time_after_clock_moved");
+                if hold_view {
+                    ctx.count("reach.adapter_call_while_caller_views_clock");
+                }
+            }
             "HGET" if adapter.is_some() => {
                 if htouch.get() {
                     ctx.count("reach.history_touches_shared_clock");
@@ -819,6 +838,9 @@ pub fn generate(prop: &str, tier: Tier, rng: &mut Rng, seed: u64, run: u64) -> P
             15 => {
                 // sometimes exactly the current clock value (offset becomes zero)
                 let cur = plan.ops.iter().rev().find(|o| o.code == "CLK").map(|o| o.arg(0)).unwrap_or(plan.get("t0"));
+                if rng.chance(0.3) {
+                    plan.push("HOLD", &[rng.below(2) as i64]);
+                }
                 plan.push("HTIME", &[if rng.chance(0.25) { cur } else { tval(rng) }]);
             }
             16 | 17 => {
@@ -827,6 +849,9 @@ pub fn generate(prop: &str, tier: Tier, rng: &mut Rng, seed: u64, run: u64) -> P
                 }
                 if rng.chance(0.15) {
                     plan.push("HTOUCH", &[rng.below(2) as i64]);
+                }
+                if rng.chance(0.15) {
+                    plan.push("HOLD", &[rng.below(2) as i64]);
                 }
                 if rng.chance(0.15) {
                     plan.push("HUERR", &[if rng.chance(0.5) { 0 } else { rng.range(1, 3) }]);
